@@ -17,6 +17,8 @@ T01 == T0 \cup T1
 T2 == { Node(k, <<a>>) : k \in Conn, a \in T1 } \cup { Node(k, <<a, b>>) : k \in Conn, a \in T01, b \in T01 }
 Classes == {"atom", "neg", "and2", "or2", "cond", "ncond", "pand", "npand", "condbs"}
 ClassChoices == { <<"atom", "atom", "atom">>, <<"and2", "or2", "cond">>, <<"or2", "cond", "and2">>, <<"cond", "neg", "or2">>, <<"neg", "and2", "atom">>, <<"ncond", "atom", "or2">>, <<"and2", "ncond", "ncond">>, <<"pand", "atom", "pand">>, <<"or2", "pand", "neg">>, <<"npand", "atom", "cond">>, <<"condbs", "npand", "atom">>, <<"atom", "condbs", "or2">> }
+\* (depth 3 multiplies the trees by 27: it is explored for two of the class assignments)
+DeepChoices == { <<"and2", "or2", "cond">>, <<"npand", "atom", "cond">> }
 \* abstract clause texts of each class (identifiers a_i, b_i, c_i)
 Nm(x, i) == Id(IF i = 1 THEN x \o "1" ELSE IF i = 2 THEN x \o "2" ELSE x \o "3")
 ClauseToks(c, i) == CASE c = "atom" -> <<Nm("a", i)>>
@@ -32,7 +34,7 @@ Clauses(cs) == [i \in 1..3 |-> ClauseToks(cs[i], i)]
 Init == tree \in T0 /\ cls \in ClassChoices
 Wrap3(t) == { Node(k, <<t>>) : k \in Conn } \cup { Node(k, <<t, p>>) : k \in Conn, p \in T0 } \cup { Node(k, <<p, t>>) : k \in Conn, p \in T0 }
 Next == \/ (tree \in T0 /\ tree' \in T1 \cup T1wide \cup T2 /\ UNCHANGED cls)
-        \/ (DEPTH >= 3 /\ tree \in T2 /\ tree' \in Wrap3(tree) /\ UNCHANGED cls)
+        \/ (DEPTH >= 3 /\ tree \in T2 /\ cls \in DeepChoices /\ tree' \in Wrap3(tree) /\ UNCHANGED cls)
 Spec == Init /\ [][Next]_vars
 RefPreserves == Preserves(tree, Clauses(cls), Ref(tree, Clauses(cls)))
 \* and a wrong translation is noticed: joining without parentheses is NOT accepted for a tree where it matters
